@@ -86,7 +86,8 @@ class Report(PropertyTreeNode, MessageHandler):
         """
         super().__init__(project.reports, id, name, parent)
 
-        self._check_filename(name)
+        # (the name becomes a file name only when the report is generated: it is checked there, so
+        # that a report nobody asks for cannot fail the run)
         project.addReport(self)
 
         # The type specifier must be set for every report
@@ -140,6 +141,8 @@ class Report(PropertyTreeNode, MessageHandler):
 
         # Determine which formats to generate
         formats = requested_formats or self.get("formats") or []
+        if formats:
+            self._check_filename(self.name)
 
         for fmt in formats:
             if not self.name:
